@@ -362,7 +362,9 @@ func runBurstBatch(r *vh.Run) {
 		c := burstCase{Kind: "burst", N: 70 + 15*(i%3), Conns: []int{1, 4, 9}[i%3], Err: []string{"refused", "mixed", "dial-timeout", "dialerr"}[i%4], Idx: i}
 		r.Case(c)
 		runBurstCase(r, c)
-		if stopEarly(r) {
+		if r.Violations() > 0 {
+			// a wedged proxy costs ~40 s per case (quiescence + teardown watchdog)
+			r.Count("burst_batch_stopped_after_first_violation", 1)
 			return
 		}
 	}
